@@ -6,8 +6,9 @@ RULE = ("documents: every symbol string up to MaxLen over a 17-symbol alphabet (
         "digits, minus, point, exponent, true, null, space, \\u escapes incl. lone surrogates) and every quoted string body up to 5 (thorough 6) string symbols, with the verdict of the TLA+ RFC 8259 recogniser; encoding/json is "
         "evaluated side by side (a disagreement between the two oracles is a spec bug, not a violation); Valid / Unmarshal value / "
         "Compact / Indent compared; trees: every value tree of depth <= 2 over 29 leaf kinds of every uGO type (incl. bytes of 770 / 4097 bytes, a 6000-character string, a 3000-element array, a 400-key map): Marshal must return "
-        "an error or valid JSON, for representable trees the bytes of encoding/json and a faithful round trip; "
+        "an error or valid JSON, for representable trees the bytes of encoding/json and a faithful round trip; the same through the module's functions as a script calls them: MarshalIndent and NoEscape (bytes of encoding/json), Quote / NoQuote (valid JSON or an error), RawMessage bare and nested (the raw bytes embedded); "
         "near-valid documents: 14 valid skeleton documents (members, elements, nesting, white space, numbers, escapes) changed by every single-symbol insertion, deletion and replacement (thorough: every pair of edits); "
+        "documents beyond the recogniser (nesting depth around 10000, long / extreme numbers, long strings, escapes, stray bytes): encoding/json alone is the oracle; "
         "non-trivial = documents the recogniser accepts, and all trees")
 
 def leaves(t):
@@ -25,7 +26,28 @@ def run(ctx):
     ndocs = sum(1 for _ in open(out)) + sum(1 for _ in open(sout)) + sum(1 for _ in open(nout))
     nacc = sum(1 for p_ in (out, sout, nout) for l in open(p_) if 'accept\\":true' in l)
     ntrees = sum(1 for _ in open(tout))
-    for label, path in (("docs", out), ("strings", sout), ("near", nout), ("trees", tout)):
+    # documents beyond the recogniser's reach (nesting depth around encoding/json's limit of 10000, long numbers and
+    # strings): the property names encoding/json as the reference, it alone is the oracle here
+    dout = ctx.path("deep.ndjson")
+    with open(dout, "w") as f:
+        def put(*parts):
+            f.write(json.dumps(dict(k="doc", s=list(parts), accept=False, nospec=True)) + "\n")
+        for n in (1, 100, 5000, 9999, 10000, 10001, 10002, 20000):
+            put("[" * n, "]" * n)
+            put("[" * n, "1", "]" * n)
+            put('{"a":' * n, "1", "}" * n)
+            put("[" * n, "]" * (n - 1))
+            put('[{"a":' * (n // 2), "null", "}]" * (n // 2))
+        for num in ("1" * 400, "1e400", "-1e400", "1e-400", "0." + "0" * 400 + "1", "-0", "-0.0", "1E+2", "1e+02", "01", "1.", ".5", "+1", "0x10", "1e", "1e+", "-", "--1",
+                    "9223372036854775807", "9223372036854775808", "18446744073709551615", "18446744073709551616", "1.7976931348623157e308", "1.7976931348623159e308", "5e-324", "2e-324"):
+            put(num)
+            put("[", num, "]")
+            put('{"n":', num, "}")
+        for st in ('"' + "a" * 70000 + '"', '"' + "\\n" * 5000 + '"', '"' + "\\u00e9" * 3000 + '"', '"\\ud83d\\ude00"', '"\\ude00\\ud83d"', '"\\u12"', '"\\x41"', '"\t"', '"\x7f"', '"\xc3\x28"',
+                   "\ufeff[]", "[]\x00", " \t\r\n[ ] \n", "[1,2" + " " * 5000 + "]", "nul", "nulll", "truefalse", "NaN", "Infinity", "'a'", "[1 2]", '{"a" 1}', '{"a":1 "b":2}', '{1:2}', "[,]", "[1,,2]"):
+            put(st)
+    ndeep = sum(1 for _ in open(dout))
+    for label, path in (("docs", out), ("strings", sout), ("near", nout), ("deep", dout), ("trees", tout)):
         res = ctx.path("res-%s.ndjson" % label)
         ctx.vh("c17", path, res)
         for r in vlib.read_ndjson(res):
@@ -41,6 +63,7 @@ def run(ctx):
                 ctx.violation(key, "Marshal of %s: %s" % (json.dumps(t), r["what"]), dict(tree=t, what=r["what"]))
             else:
                 ctx.violation("doc:" + vlib.sha(r["doc"] + r["what"][:20]), "document %r: %s" % (r["doc"], r["what"]), dict(doc=r["doc"], what=r["what"]))
+    ndocs += ndeep
     ctx.evaluations = ndocs + ntrees
     ctx.traces_validated = ndocs + ntrees
     ctx.nontrivial = nacc + ntrees
